@@ -16,6 +16,10 @@
 #include <asmjit/support/arenatree.h>
 #include <asmjit/support/support.h>
 
+#if defined(ASMJIT_VERIF)
+  #include <asmjit/support/verif_p.h>
+#endif
+
 #if defined(ASMJIT_TEST)
 #include <asmjit-testing/commons/random.h>
 #endif // ASMJIT_TEST
@@ -883,6 +887,9 @@ JitAllocator::Statistics JitAllocator::statistics() const noexcept {
   if (ASMJIT_LIKELY(_impl != &JitAllocatorImpl_none)) {
     JitAllocatorPrivateImpl* impl = static_cast<JitAllocatorPrivateImpl*>(_impl);
     LockGuard guard(impl->lock);
+#if defined(ASMJIT_VERIF)
+    ASMJIT_VERIF_SHARED(impl, "statistics");
+#endif
 
     size_t pool_count = impl->pool_count;
     for (size_t pool_id = 0; pool_id < pool_count; pool_id++) {
@@ -919,6 +926,9 @@ Error JitAllocator::alloc(Out<Span> out, size_t size) noexcept {
   }
 
   LockGuard guard(impl->lock);
+#if defined(ASMJIT_VERIF)
+  ASMJIT_VERIF_SHARED(impl, "alloc");
+#endif
   JitAllocatorPool* pool = &impl->pools[JitAllocator_size_to_pool_id(impl, size)];
 
   uint32_t area_index = no_index;
@@ -1008,6 +1018,9 @@ Error JitAllocator::alloc(Out<Span> out, size_t size) noexcept {
   }
 
   // Update statistics.
+#if defined(ASMJIT_VERIF)
+  ASMJIT_VERIF_SHARED(impl, "alloc:update");
+#endif
   impl->allocation_count++;
   block->mark_allocated_area(area_index, area_index + area_size);
 
@@ -1032,6 +1045,9 @@ Error JitAllocator::release(void* rx) noexcept {
 
   JitAllocatorPrivateImpl* impl = static_cast<JitAllocatorPrivateImpl*>(_impl);
   LockGuard guard(impl->lock);
+#if defined(ASMJIT_VERIF)
+  ASMJIT_VERIF_SHARED(impl, "release");
+#endif
 
   JitAllocatorBlock* block = impl->tree.get(static_cast<uint8_t*>(rx));
   if (ASMJIT_UNLIKELY(!block)) {
@@ -1047,6 +1063,9 @@ Error JitAllocator::release(void* rx) noexcept {
   uint32_t area_end = uint32_t(Support::bit_vector_index_of(block->_stop_bit_vector, area_index, true)) + 1;
   uint32_t area_size = area_end - area_index;
 
+#if defined(ASMJIT_VERIF)
+  ASMJIT_VERIF_SHARED(impl, "release:update");
+#endif
   impl->allocation_count--;
   block->mark_released_area(area_index, area_end);
 
@@ -1080,6 +1099,9 @@ static Error JitAllocatorImpl_shrink(JitAllocatorPrivateImpl* impl, JitAllocator
   }
 
   LockGuard guard(impl->lock);
+#if defined(ASMJIT_VERIF)
+  ASMJIT_VERIF_SHARED(impl, "shrink");
+#endif
 
   // Offset relative to the start of the block.
   JitAllocatorPool* pool = block->pool();
@@ -1151,6 +1173,9 @@ Error JitAllocator::query(Out<Span> out, void* rx) const noexcept {
 
   JitAllocatorPrivateImpl* impl = static_cast<JitAllocatorPrivateImpl*>(_impl);
   LockGuard guard(impl->lock);
+#if defined(ASMJIT_VERIF)
+  ASMJIT_VERIF_SHARED(impl, "query");
+#endif
   JitAllocatorBlock* block = impl->tree.get(static_cast<uint8_t*>(rx));
 
   if (ASMJIT_UNLIKELY(!block)) {
